@@ -16,5 +16,5 @@ for p in "$@"; do
 done
 git -C /repo checkout -- .
 # the generated tables were regenerated from the patched tree: regenerate them from the restored one
-/verif/translator/target/release/wtrans /repo /verif/lean/Walrus/Gen parsites instrspec codestart parsearms >/dev/null 2>&1 || true
+/verif/translator/target/release/wtrans /repo /verif/lean/Walrus/Gen parsites instrspec codestart parsearms emitorder >/dev/null 2>&1 || true
 git -C /repo status --porcelain --untracked-files=no
